@@ -22,7 +22,8 @@ TECHNIQUE = 'end-to-end run of the real workflow under an output-workbook integr
 RULE = ('generated well-formed workbooks (as C10) x {plots on/off, histogram sheet on/off, explicit/default output path} x '
         'bead rows with 1,2,3 clustering channels; arbitrary tables of strings, integers, floats, empty cells (index gaps, '
         'duplicates) for the write/read round trip; the shipped example workbook (thorough); non-trivial = workbook with '
-        '>= 1 bead row or plots on, or round-trip table with >= 1 empty cell; distinct = digest(workbook, options)')
+        '>= 1 bead row or plots on, or round-trip table with >= 1 empty cell; distinct = digest(workbook, options)'
+        ' Also: 1-4 clustering channels incl. a scatter channel, a row whose gate keeps no event, progress messages on, sheet/identifier column addressed by position.')
 ASSUMPTIONS = ['cell equality: NaN == empty, numeric equality across int/float',
                'step budget = 8e6 + 6e6 per row (a typical row costs ~1.1e6 counted steps, the most expensive seen 1.2e6); exceeding it aborts the run and is a violation; the wall-clock watchdog only yields inconclusive']
 MIN_CHECKS = {'quick': 400, 'thorough': 6000}
